@@ -562,6 +562,13 @@ def parse_options_header(value: str | None) -> tuple[str, dict[str, str]]:
         if match:
             # key*0=a; key*1=b becomes key=ab
             pk = pk[: match.start()]
+
+        if not pk:
+            # Only the "*" or "*0" marker, without a name. Ignore it like
+            # other parameters without a key.
+            continue
+
+        if match:
             options[pk] = options.get(pk, "") + pv
         else:
             options[pk] = pv
